@@ -270,62 +270,61 @@ impl Tzif {
     /// be provided. This time does NOT exist due to the +1 jump from
     /// 02:00 -> 03:00 (but of course it does as a nanosecond value).
     pub fn v2_estimate_tz_pair(&self, seconds: &Seconds) -> TemporalResult<LocalTimeRecordResult> {
-        // We need to estimate a tz pair.
-        // First search the ambiguous seconds.
+        // The local seconds are searched as if they were UTC. The real position can only differ by
+        // the UTC offsets involved, which are far smaller than the distance between transitions, so
+        // the periods next to the estimate are the only candidates.
         let db = self.get_data_block2()?;
-        let b_search_result = db.transition_times.binary_search(seconds);
+        let count = db.transition_times.len();
 
-        let estimated_idx = match b_search_result {
-            // TODO: Double check returning early here with tests.
-            Ok(idx) => return Ok(get_local_record(db, idx).into()),
-            Err(idx) if idx == 0 => {
-                return Ok(LocalTimeRecordResult::Single(
-                    get_local_record(db, idx).into(),
-                ))
-            }
-            Err(idx) => {
-                if db.transition_times.len() <= idx {
-                    // The transition time provided is beyond the length of
-                    // the available transition time, so the time zone is
-                    // resolved with the POSIX tz string.
-                    return resolve_posix_tz_string(
-                        self.posix_tz_string()
-                            .ok_or(TemporalError::general("Could not resolve time zone."))?,
-                        seconds.0,
-                    );
-                }
-                idx
-            }
+        // Number of transitions at or before the local seconds, i.e. the index of the period
+        // (period 0 lies before the first transition, period `i` starts at transition `i - 1`).
+        let estimated_period = match db.transition_times.binary_search(seconds) {
+            Ok(idx) => idx + 1,
+            Err(idx) => idx,
         };
 
-        // The estimated index will be off based on the amount missing
-        // from the lack of offset.
-        //
-        // This means that we may need (idx, idx - 1) or (idx - 1, idx - 2)
-        let record = get_local_record(db, estimated_idx);
-        let record_minus_one = get_local_record(db, estimated_idx - 1);
+        if count <= estimated_period {
+            // The time provided is beyond the available transition times, so the time zone is
+            // resolved with the POSIX tz string.
+            if let Some(posix_tz_string) = self.posix_tz_string() {
+                return resolve_posix_tz_string(posix_tz_string, seconds.0);
+            }
+            if count != 0 {
+                return Err(TemporalError::general("Could not resolve time zone."));
+            }
+        }
 
-        // Q: Potential shift bugs with odd historical transitions? This
-        //
-        // Shifts the 2 rule window for positive zones that would have returned
-        // a different idx.
-        let shift_window = usize::from((record.utoff + record_minus_one.utoff) >= Seconds(0));
+        // A period contains the local time if the local time, shifted by the period's own offset,
+        // lies between the period's transitions. No period does for a skipped time, two do for a
+        // repeated time - whatever the `is_dst` flags of the records say.
+        let mut earlier = None;
+        let mut later = None;
+        let first_period = estimated_period.saturating_sub(1);
+        let last_period = (estimated_period + 1).min(count);
+        for period in first_period..=last_period {
+            // RFC 8536: time type 0 applies before the first transition.
+            let record = if period == 0 {
+                db.local_time_type_records[0]
+            } else {
+                get_local_record(db, period - 1)
+            };
+            let utc_seconds = *seconds - record.utoff;
+            let starts_before = period == 0 || db.transition_times[period - 1] <= utc_seconds;
+            let ends_after = period == count || utc_seconds < db.transition_times[period];
+            if starts_before && ends_after {
+                if earlier.is_none() {
+                    earlier = Some(record);
+                } else if later.is_none() {
+                    later = Some(record);
+                }
+            }
+        }
 
-        let new_idx = estimated_idx - shift_window;
-
-        let current_transition = db.transition_times[new_idx];
-        let current_diff = *seconds - current_transition;
-
-        let initial_record = get_local_record(db, new_idx - 1);
-        let next_record = get_local_record(db, new_idx);
-
-        // Adjust for offset inversion from northern/southern hemisphere.
-        let offset_range = offset_range(initial_record.utoff.0, next_record.utoff.0);
-        match offset_range.contains(&current_diff.0) {
-            true if next_record.is_dst => Ok(LocalTimeRecordResult::Empty),
-            true => Ok((next_record, initial_record).into()),
-            false if current_diff <= initial_record.utoff => Ok(initial_record.into()),
-            false => Ok(next_record.into()),
+        match (earlier, later) {
+            (None, _) => Ok(LocalTimeRecordResult::Empty),
+            (Some(record), None) => Ok(record.into()),
+            // NOTE: kept as (record after the transition, record before the transition).
+            (Some(initial_record), Some(next_record)) => Ok((next_record, initial_record).into()),
         }
     }
 }
